@@ -4,6 +4,9 @@ use std::fmt;
 use std::time::Instant;
 
 mod datetime;
+#[cfg(tracing_verif)]
+#[doc(hidden)]
+pub use datetime::__verif as __verif_datetime;
 
 #[cfg(feature = "time")]
 mod time_crate;
